@@ -5,6 +5,7 @@ package driver
 import (
 	"bytes"
 	"fmt"
+	"strings"
 
 	"github.com/google/pprof/internal/verifsim/simrt"
 	"github.com/google/pprof/profile"
@@ -240,4 +241,59 @@ func encodeProfile(p *profile.Profile) []byte {
 		panic(fmt.Sprintf("generator produced unwritable profile: %v", err))
 	}
 	return buf.Bytes()
+}
+
+// genLegacyText returns a seeded profile in one of the legacy text formats
+// (heap, contention, Go count), closed by a memory-map section that uses the
+// attr=value / $attr substitution lines with attribute names that are
+// prefixes of one another.
+func genLegacyText(t *simrt.Tape) []byte {
+	K := simrt.KGen
+	var sb strings.Builder
+	addr := func() string { return fmt.Sprintf("0x%x", 0x401000+0x10*t.Choose(K, 6)) }
+	stack := func() string {
+		n := 1 + t.Choose(K, 3)
+		parts := make([]string, n)
+		for i := range parts {
+			parts[i] = addr()
+		}
+		return strings.Join(parts, " ")
+	}
+	ns := 1 + t.Choose(K, 4)
+	sentinel := "MAPPED_LIBRARIES:"
+	switch t.Choose(K, 3) {
+	case 0:
+		sb.WriteString("heap profile: 1: 1024 [2: 2048] @ heapprofile\n")
+		for i := 0; i < ns; i++ {
+			n := 1 + t.Choose(K, 2)
+			fmt.Fprintf(&sb, "%d: %d [%d: %d] @ %s\n", n, 1024*n, n, 1024*n, stack())
+		}
+		sb.WriteString("\n")
+	case 1:
+		sb.WriteString("--- contentionz 1 ---\ncycles/second = 1000000\nsampling period = 100\n")
+		for i := 0; i < ns; i++ {
+			fmt.Fprintf(&sb, "%d %d @ %s\n", 100*(1+t.Choose(K, 2)), 1+t.Choose(K, 2), stack())
+		}
+		sentinel = "--- Memory map: ---"
+	default:
+		fmt.Fprintf(&sb, "goroutine profile: total %d\n", ns)
+		for i := 0; i < ns; i++ {
+			fmt.Fprintf(&sb, "%d @ %s\n", 1+t.Choose(K, 2), stack())
+		}
+		sb.WriteString("\n")
+		sentinel = "--- Memory map: ---"
+	}
+	sb.WriteString(sentinel + "\n")
+	names := []string{"build", "buildid", "b", "dir", "dirname"}
+	vals := []string{"rel-2041", "0123abcd", "srv", "opt/x", "v2"}
+	na := t.Choose(K, 4)
+	for i := 0; i < na; i++ {
+		fmt.Fprintf(&sb, "%s=%s\n", names[t.Choose(K, len(names))], vals[t.Choose(K, len(vals))])
+	}
+	files := []string{"/bin/prog", "/$dir/bin/prog.$buildid", "/$dirname/$build/prog", "/srv/$b/$buildid/prog", "/lib/libc-$build.so"}
+	fmt.Fprintf(&sb, "00400000-00500000 r-xp 00000000 00:00 0          %s\n", files[t.Choose(K, len(files))])
+	if t.Bool(K, 40) {
+		fmt.Fprintf(&sb, "00500000-00600000 r-xp 00000000 00:00 0          %s\n", files[t.Choose(K, len(files))])
+	}
+	return []byte(sb.String())
 }
